@@ -216,6 +216,9 @@ def main():
             print('replay: no violation reproduced')
         return status
 
+    import glob
+    for old in glob.glob(os.path.join(HERE, 'replays', '%s-*.json' % prop)):
+        os.unlink(old)
     mod = _module(prop)
     seeds = hash_seeds(args.tier, args.seed)
     if getattr(mod, 'HASH_INSENSITIVE', False):
